@@ -10,6 +10,7 @@ from vlib import core
 for (t, ok, msg) in core.run_translators():
     print("translator", t, "ok" if ok else "FAILED: " + msg)
 PY
+sh tools/mkcoqproject.sh
 (cd coq && coq_makefile -f _CoqProject -o Makefile >/dev/null && timeout 3000 make -j16 >/dev/null 2>&1 || (make 2>&1 | tail -30; exit 1))
 sh coq/extract/build.sh
 (cd harness && cargo build --offline --target-dir target 2>&1 | tail -2)
